@@ -29,7 +29,8 @@ fn gen_tree(rng: &mut Rng, with_noperm: bool, dir_symlinks: bool) -> Tree {
         }
     }
     // (`e-` sorts before `e/...` as a whole string but after `e` component-wise)
-    for d in ["sub", ".hid", "d2", "e", "e-", "e.f"] {
+    // (multi-byte names: a prefix built from them has different lengths in bytes and in characters)
+    for d in ["sub", ".hid", "d2", "e", "e-", "e.f", "\u{e9}z", "\u{65e5}\u{672c}"] {
         if rng.chance(70) {
             t.insert(format!("{ROOT}/{d}"), Node::Dir);
             for n in names {
@@ -345,7 +346,7 @@ pub fn run(ctx: &Ctx) {
                 add_virtual_root(&mut tree);
             }
             let mut cases = Vec::new();
-            let comps = ["*", "?", "a*", "*b", "[ab]", "[!a]*", ".*", "sub", "ln", "dd", ".", "..", "d2", ".hid", "*.*", "[a-b]?", "a", "\\*", "'['", "*]", "e*", "e?", "[a\\\\]*", "\\\\*"];
+            let comps = ["*", "?", "a*", "*b", "[ab]", "[!a]*", ".*", "sub", "ln", "dd", ".", "..", "d2", ".hid", "*.*", "[a-b]?", "a", "\\*", "'['", "*]", "e*", "e?", "[a\\\\]*", "\\\\*", "\u{e9}z", "\u{e9}*", "\u{65e5}\u{672c}", "\u{65e5}?", "'\u{e9}'z", "?z", "??", "[\u{e9}\u{65e5}]*"];
             while cases.len() < 60 {
                 let mut p: Vec<PC> = Vec::new();
                 if rng.chance(15) && !real {
